@@ -1,6 +1,7 @@
 import OdcGeo.Model.C17
 import OdcGeo.Model.C17Glue
 import OdcGeo.Model.C17Path
+import OdcGeo.Model.C17Np
 import OdcGeo.Spec.PySliceStep
 import OdcGeo.Model.C03
 import OdcGeo.Spec.PySlice
@@ -67,8 +68,45 @@ def parseOB? (s : String) : Option (Option Int × Option Int) :=
     | _, _ => none
   | _ => none
 
+def parseBnd? (s : String) : Option (Option Bnd) :=
+  if s = "N" then some none
+  else if s = "s" then some (some .str)
+  else match s.splitOn ":" with
+    | ["i", v] => (parseInt? v).map fun k => some (Bnd.int k)
+    | ["f", v] => (parseRat? v).map fun q => some (Bnd.flt q)
+    | _ => none
+
+def fmtBnd : Bnd → String
+  | .int v => s!"i:{v}"
+  | .flt q => s!"f:{fmtRat q}"
+  | .str => "s"
+
+def fmtResB {β : Type} (f : β → String) : ResB β → String
+  | .ok a => f a
+  | .error e => e.toStr
+
 def run (args : List String) : Option String :=
   match args with
+  | ["bnd", "norm", a, b, n] => do
+    let a ← parseBnd? a; let b ← parseBnd? b; let n ← parseInt? n
+    pure (fmtResB (fun (p : Bnd × Bnd) => s!"{fmtBnd p.1} {fmtBnd p.2}") (normSliceB a b n))
+  | ["bnd", "dim", a, b] => do
+    let a ← parseBnd? a; let b ← parseBnd? b
+    pure (fmtResB fmtBnd (sliceDimB a b))
+  | "npw" :: fn :: sg :: bits :: rest => do
+    -- every operand a numpy scalar of the type (signed?, bits): arithmetic wraps around in the type
+    let sg ← parseBool? sg; let bits ← parseNat? bits
+    let t : C04.NpT := ⟨sg, bits⟩
+    let vs ← rest.mapM parseInt?
+    match fn, vs with
+    | "norm", [a, b, n] => pure (fmtNS (normSliceW t a b n))
+    | "pad", [a, b, pad, n] => pure (fmtNS (padSliceW t a b pad n))
+    | "dim", [a, b] => pure (fmtInt (sliceDimW t a b))
+    | "alup", [x, a] => pure (fmtInt (alignUpW t x a))
+    | "aldown", [x, a] => pure (fmtInt (alignDownW t x a))
+    | "down", [a, b, k] => pure (fmtNS (scaledDownSliceW t ⟨a, b⟩ k))
+    | "up", [a, b, k] => pure (fmtNS (scaledUpSliceW t ⟨a, b⟩ k))
+    | _, _ => none
   | ["ns2d", idx, shape] => do
     let shape ← parseList? parseInt? shape
     let idx ← (match idx.splitOn "|" with
